@@ -190,7 +190,7 @@ func (c *gctx) expr(depth int, consuming bool) *Expr {
 	if c.cfg.StateBias && c.cfg.States && !c.inRecov && c.chance(1, 4) {
 		return c.stateProbe(depth, consuming)
 	}
-	if c.cfg.Wide && c.chance(1, 8) {
+	if c.cfg.Wide && c.chance(1, 5) {
 		// optimizer food: a choice of classes and one-character literals, which
 		// -optimize-grammar folds into one class
 		e := &Expr{Kind: Choice}
@@ -620,11 +620,11 @@ func generateLR(c *gctx) *Grammar {
 	}
 	ref := func(n string) *Expr { return &Expr{Kind: Ref, Name: n} }
 	seq := func(items ...*Expr) *Expr { return &Expr{Kind: Seq, Subs: items} }
-	shape := c.r.Intn(6)
+	shape := c.r.Intn(7)
 	if c.cfg.LeftRecDirect {
 		shape = []int{0, 2, 5}[c.r.Intn(3)]
 	} else if c.cfg.LeftRecRunnable {
-		shape = []int{0, 1, 2, 3, 5}[c.r.Intn(5)]
+		shape = []int{0, 1, 2, 3, 5, 6}[c.r.Intn(6)]
 	}
 	switch shape {
 	case 0: // A <- A op B / B
@@ -641,6 +641,12 @@ func generateLR(c *gctx) *Grammar {
 				act(seq(append([]*Expr{lab(ref("Aa"))}, st([]*Expr{c.lit(), lab(ref("Bb"))})...)...)),
 				act(ref("Bb"))}}},
 			&Rule{Name: "Bb", Expr: act(seq(st([]*Expr{operand()})...))})
+	case 6: // a cycle of pure forwarding rules with one way out
+		g.Rules = append(g.Rules,
+			&Rule{Name: "Start", Expr: &Expr{Kind: Choice, Subs: []*Expr{act(seq(operand(), c.lit())), seq(lab(ref("Aa")), c.lit(), ref("Aa")), ref("Aa")}}},
+			&Rule{Name: "Aa", Expr: ref("Bb")},
+			&Rule{Name: "Bb", Expr: ref("Cc")},
+			&Rule{Name: "Cc", Expr: &Expr{Kind: Choice, Subs: []*Expr{ref("Aa"), act(operand())}}})
 	case 1: // mutual: A <- B x / y ; B <- A z / w
 		g.Rules = append(g.Rules,
 			&Rule{Name: "Start", Expr: ref("Aa")},
